@@ -335,14 +335,9 @@ impl KotoVm {
         self.frame_mut().execution_barrier = true;
 
         // Run the chunk
-        let sequence_builders = self.sequence_builders.len();
-        let string_builders = self.string_builders.len();
         let result = self.execute_instructions();
         if result.is_err() {
             self.pop_frame(KValue::Null)?;
-            // Discard any sequences or strings that were under construction
-            self.sequence_builders.truncate(sequence_builders);
-            self.string_builders.truncate(string_builders);
         }
 
         // Reset the register stack back to where it was at the start of the run
@@ -809,6 +804,11 @@ impl KotoVm {
 
         self.instruction_ip = self.ip();
 
+        // Sequences or strings that are under construction when an error leaves this function
+        // need to be discarded.
+        let sequence_builders = self.sequence_builders.len();
+        let string_builders = self.string_builders.len();
+
         // Every code path in this function must set the execution state to something other
         // than Active before exiting.
         self.execution_state = ExecutionState::Active;
@@ -821,6 +821,8 @@ impl KotoVm {
                 && timeout.check_for_timeout()
             {
                 self.execution_state = ExecutionState::Inactive;
+                self.sequence_builders.truncate(sequence_builders);
+                self.string_builders.truncate(string_builders);
                 return self
                     .pop_call_stack_on_error(
                         ErrorKind::Timeout(timeout.execution_limit).into(),
@@ -870,6 +872,8 @@ impl KotoVm {
                             *vm = Some(self.spawn_shared_vm().into());
                         }
                         self.execution_state = ExecutionState::Inactive;
+                        self.sequence_builders.truncate(sequence_builders);
+                        self.string_builders.truncate(string_builders);
                         return Err(error);
                     }
                 },
